@@ -72,7 +72,8 @@ class CHECK(Check):
             "numeric fields, random 0-9 byte strings, truncations of valid payloads, invalid UTF-8 from the Table 3-7 "
             "negative classes; (d) sequences of 2-4 reads through one field object, valid and invalid interleaved (slot "
             "carry-over). Each case is read through a one-field Line (positional) so the field's slot is observed too. "
-            "non-trivial = span is non-empty and not all blanks; distinct = case hash")
+            "non-trivial = span is non-empty and not all blanks; distinct = case hash"
+            " Later additions: ambiguous date-format lists x 2-4 reads through one field; numeric binary widths 1/3/5/6; valid spans with hostile byte surroundings.")
 
     def gen(self, tier, rng):
         maxlen = 3 if tier == "quick" else 4
